@@ -55,12 +55,21 @@ def coeffs(K, M, rot=0):
     return COEF[rows][:, :M]
 
 
-GEOMS = ["coincident", "generic", "z", "x", "y", "far"]
+GEOMS = ["coincident", "generic", "z", "far12x", "tail28", "x", "y", "far", "far20z", "far33y", "tail22", "tail25", "tail31", "tail34"]
 
 
-def displacement(geom, tag="d"):
-    """Displacement of centre B from centre A for a geometry class."""
+def displacement(geom, tag="d", mu=None):
+    """Displacement of centre B from centre A for a geometry class.
+    tailNN: distance chosen so that mu R^2 = NN for the most diffuse primitive pair (mu = ab/(a+b)): the Gaussian
+    product factor is e^-NN there, i.e. on the ladder 3e-10 ... 2e-15 where truncation / screening thresholds live,
+    while high angular momentum can still lift the integral above the tolerance."""
     d = hfloat(tag + "len", 0.7, 1.6)
+    if geom.startswith("tail"):
+        X = float(geom[4:])
+        R = min(60.0, (X / mu) ** 0.5)
+        u = (0.96, 0.2, -0.19)
+        n = sum(v * v for v in u) ** 0.5
+        return tuple(R * v / n for v in u)
     if geom == "coincident":
         return (0.0, 0.0, 0.0)
     if geom == "x":
@@ -71,6 +80,12 @@ def displacement(geom, tag="d"):
         return (0.0, 0.0, d)
     if geom == "generic":
         return (hfloat(tag + "gx", 0.4, 0.9), -hfloat(tag + "gy", 0.9, 1.4), hfloat(tag + "gz", 0.15, 0.4))
+    if geom == "far12x":  # long-range tail along one axis (diffuse high-l functions still overlap measurably)
+        return (12.0 + hfloat(tag + "f12", 0.0, 0.5), 0.3, -0.2)
+    if geom == "far20z":
+        return (0.2, -0.1, 20.0 + hfloat(tag + "f20", 0.0, 1.0))
+    if geom == "far33y":
+        return (0.0, -(33.0 + hfloat(tag + "f33", 0.0, 2.0)), 0.4)
     if geom == "far":
         return (hfloat(tag + "fx", 4.0, 5.0), hfloat(tag + "fy", 3.0, 4.0), -hfloat(tag + "fz", 5.0, 6.0))
     raise ValueError(geom)
